@@ -68,6 +68,10 @@ class ReachingDefs:
                 elif isinstance(s, ast.AugAssign):
                     if isinstance(s.target, ast.Name):
                         self._add(Def(s.target.id, n.id, "aug", s.value, s))
+                elif (isinstance(s, ast.Expr) and isinstance(s.value, ast.Call) and isinstance(s.value.func, ast.Attribute) and isinstance(s.value.func.value, ast.Name)
+                      and any(k.arg == "inplace" and isinstance(k.value, ast.Constant) and k.value.value is True for k in s.value.keywords)):
+                    # pandas in-place idiom `X.ffill(inplace=True)`: X now stands for the result of the call on the previous X
+                    self._add(Def(s.value.func.value.id, n.id, "inplace", s.value, s))
                 elif isinstance(s, (ast.Import, ast.ImportFrom)):
                     for al in s.names:
                         self._add(Def((al.asname or al.name).split(".")[0], n.id, "import", None, s))
@@ -396,7 +400,7 @@ class Sym:
             d = defs[0]
             if d.kind == "param":
                 return Poly.atom(e.id)
-            if d.kind == "assign" and d.value is not None:
+            if d.kind in ("assign", "inplace") and d.value is not None:
                 return self.ev(d.value, d.node, depth + 1)
             if d.kind == "aug" and d.value is not None:
                 prev = self._name(ast.Name(id=e.id, ctx=ast.Load()), None, depth + 1) if False else None
@@ -432,8 +436,28 @@ class Sym:
             r = self._diamond(e.id, defs, at, depth)
             if r is not None:
                 return r
+        # several definitions reach and no single `if` explains them: an opaque choice among their values, named by the
+        # values (not by the variable's spelling); definitions that feed themselves (loops) are cut by a guard
+        key = (e.id, tuple(sorted(id(d) for d in defs)))
+        stack = self.__dict__.setdefault("_phi_stack", set())
         kinds = sorted({d.kind for d in defs})
-        return Poly.atom(f"phi({e.id}:{len(defs)}:{'/'.join(kinds)})")
+        if key in stack or depth >= self.max_depth - 5:
+            return Poly.atom(f"phi~({len(defs)}:{'/'.join(kinds)})")
+        stack.add(key)
+        try:
+            alts = []
+            for d in defs:
+                if d.kind in ("assign", "inplace") and d.value is not None:
+                    alts.append(self.ev(d.value, d.node, depth + 1).key())
+                elif d.kind == "aug" and d.value is not None and isinstance(d.ast, ast.AugAssign):
+                    alts.append(self._binop(d.ast.op, self._name(ast.Name(id=e.id, ctx=ast.Load()), d.node, depth + 1), self.ev(d.value, d.node, depth + 1)).key())
+                elif d.kind == "param":
+                    alts.append(e.id)
+                else:
+                    alts.append(f"<{d.kind}>")
+        finally:
+            stack.discard(key)
+        return Poly.atom("phi(" + " | ".join(sorted(set(alts))) + ")")
 
     # ---- two definitions joined by one `if`: the value is the conditional expression the statement form spells out
     def _parents(self):
@@ -463,6 +487,8 @@ class Sym:
 
     def _diamond(self, var, defs, at, depth):
         def plain(d):
+            if d.kind == "aug":
+                return d.value is not None and isinstance(d.ast, ast.AugAssign) and isinstance(d.ast.target, ast.Name)
             return d.kind == "assign" and d.value is not None and isinstance(d.ast, ast.Assign) and len(d.ast.targets) == 1 and isinstance(d.ast.targets[0], ast.Name)
         if not any(plain(d) for d in defs):
             return None
@@ -505,6 +531,8 @@ class Sym:
         def val(d):
             if d is outer_only:
                 return self._name(ast.Name(id=var, ctx=ast.Load()), tn.id, depth + 1)      # the value reaching the `if` (one definition there)
+            if d.kind == "aug":      # x op= e  is  x = x op e
+                return self._binop(d.ast.op, self._name(ast.Name(id=var, ctx=ast.Load()), d.node, depth + 1), self.ev(d.value, d.node, depth + 1))
             return self.ev(d.value, d.node, depth + 1)
         if self.decide is not None:
             v_ = self.decide(c)
